@@ -28,8 +28,8 @@ Qed.
 (* ---- nil padding = a present column full of nils (well-formed chunks only) ---- *)
 Lemma pad_as_present {A} (nil : A) m lastItr rows st :
   wf_rows m rows ->
-  seg_loop true nil m lastItr rows None (total rows) st =
-  seg_loop true nil m lastItr rows (Some (map (repeat nil) rows)) (total rows) st.
+  seg_loop PadCounter nil m lastItr rows None (total rows) st =
+  seg_loop PadCounter nil m lastItr rows (Some (map (repeat nil) rows)) (total rows) st.
 Proof.
   revert st. induction rows as [|r rest IH]; intros st Hwf; [reflexivity|].
   cbn [seg_loop map]. destruct rest as [|r2 rest2].
@@ -43,7 +43,7 @@ Proof.
     cbn [andb]. rewrite (IH _ Hwf).
     (* the rowCount argument is irrelevant once the column is present *)
     assert (Hirr : forall rows' (col : list (list A)) rc1 rc2 li s,
-               seg_loop true nil m li rows' (Some col) rc1 s = seg_loop true nil m li rows' (Some col) rc2 s).
+               seg_loop PadCounter nil m li rows' (Some col) rc1 s = seg_loop PadCounter nil m li rows' (Some col) rc2 s).
     { clear. induction rows' as [|x rows' IH']; intros col rc1 rc2 li s; [reflexivity|].
       cbn [seg_loop]. destruct col as [|seg segs].
       - destruct (_ && _ && _); [reflexivity|]. apply IH'.
@@ -91,7 +91,7 @@ Proof. intro H. unfold write_segment. destruct (Nat.ltb_spec m (length buf)); [l
 (* non-last input chunk: the invariant is kept and exactly the chunk's cells are consumed *)
 Lemma seg_loop_mid {A} (nil : A) m rows : forall (segs : list (list A)) rc st,
   0 < m -> wf_rows m rows -> map (@length A) segs = rows -> inv m st ->
-  let st' := seg_loop true nil m false rows (Some segs) rc st in
+  let st' := seg_loop PadCounter nil m false rows (Some segs) rc st in
   inv m st' /\ flat st' = flat st ++ concat segs.
 Proof.
   induction rows as [|r rest IH]; intros segs rc st Hm Hwf Hlen Hinv; [cbn in Hwf; tauto|].
@@ -120,7 +120,7 @@ Definition done_shape {A} (m : nat) (out : list (list A)) : Prop :=
 (* last input chunk: everything is flushed *)
 Lemma seg_loop_last {A} (nil : A) m rows : forall (segs : list (list A)) rc st,
   0 < m -> wf_rows m rows -> map (@length A) segs = rows -> inv m st ->
-  let st' := seg_loop true nil m true rows (Some segs) rc st in
+  let st' := seg_loop PadCounter nil m true rows (Some segs) rc st in
   fst st' = [] /\ done_shape m (snd st') /\ concat (snd st') = flat st ++ concat segs.
 Proof.
   induction rows as [|r rest IH]; intros segs rc st Hm Hwf Hlen Hinv; [cbn in Hwf; tauto|].
@@ -168,15 +168,15 @@ Proof. unfold present, expand. destruct (s_col s); [reflexivity | apply concat_m
 
 Lemma seg_loop_present {A} (nil : A) m li s st :
   wf_src m s ->
-  seg_loop true nil m li (s_rows s) (s_col s) (total (s_rows s)) st =
-  seg_loop true nil m li (s_rows s) (Some (present nil s)) (total (s_rows s)) st.
+  seg_loop PadCounter nil m li (s_rows s) (s_col s) (total (s_rows s)) st =
+  seg_loop PadCounter nil m li (s_rows s) (Some (present nil s)) (total (s_rows s)) st.
 Proof.
   intros [Hwf _]. unfold present. destruct (s_col s); [reflexivity|]. apply pad_as_present. exact Hwf.
 Qed.
 
 Lemma itr_loop_spec {A} (nil : A) m srcs : forall st,
   0 < m -> srcs <> [] -> Forall (wf_src m) srcs -> inv m st ->
-  let st' := itr_loop true nil m srcs st in
+  let st' := itr_loop PadCounter nil m srcs st in
   fst st' = [] /\ done_shape m (snd st') /\ concat (snd st') = flat st ++ concat (map (expand nil) srcs).
 Proof.
   induction srcs as [|s rest IH]; intros st Hm Hne Hall Hinv; [congruence|].
@@ -257,6 +257,135 @@ Proof.
     rewrite (expand_length nilA m a), (expand_length nilB m b), Hr by assumption. f_equal. apply IH; assumption.
 Qed.
 
+(* ---------- the repaired padding (PadActual): exact for every chunk whose segments are not longer than max-rows ---------- *)
+Lemma pad_actual_as_present {A} (nil : A) m lastItr rows : forall rc st,
+  seg_loop PadActual nil m lastItr rows None rc st =
+  seg_loop PadActual nil m lastItr rows (Some (map (repeat nil) rows)) rc st.
+Proof.
+  induction rows as [|r rest IH]; intros rc st; [reflexivity|].
+  cbn [seg_loop map pad_step]. destruct (_ && _ && _); [reflexivity|]. apply IH.
+Qed.
+
+Lemma write_any {A} m (buf : list A) out :
+  0 < m -> length buf < 2 * m ->
+  length (fst (write_segment m (buf, out))) < m /\ flat (write_segment m (buf, out)) = concat out ++ buf.
+Proof.
+  intros Hm Hl. unfold write_segment, flat. destruct (Nat.ltb_spec m (length buf)); cbn [fst snd].
+  - split; [rewrite skipn_length; lia|]. rewrite concat_snoc, <- app_assoc, firstn_skipn. reflexivity.
+  - split; [cbn; lia|]. rewrite concat_snoc, app_nil_r. reflexivity.
+Qed.
+
+Lemma seg_loop_bounded_mid {A} (mode : padmode) (nil : A) m rows : forall (segs : list (list A)) rc st,
+  0 < m -> Forall (fun r => r <= m) rows -> map (@length A) segs = rows -> length (fst st) < m ->
+  let st' := seg_loop mode nil m false rows (Some segs) rc st in
+  length (fst st') < m /\ flat st' = flat st ++ concat segs.
+Proof.
+  induction rows as [|r rest IH]; intros segs rc st Hm Hb Hlen Hinv.
+  - destruct segs; [|discriminate]. cbn. rewrite app_nil_r. split; [exact Hinv | reflexivity].
+  - destruct segs as [|seg segs]; [discriminate|]. cbn in Hlen. injection Hlen as Hseg Hlen.
+    apply Forall_cons_iff in Hb. destruct Hb as [Hr Hb']. rewrite <- Hseg in Hr.
+    destruct st as [buf out]. cbn [fst snd] in Hinv. cbn [seg_loop fst snd negb andb].
+    assert (Hl2 : length (buf ++ seg) < 2 * m) by (rewrite app_length; lia).
+    destruct (write_any m (buf ++ seg) out Hm Hl2) as [Hi Hf].
+    destruct rest as [|r2 rest2].
+    + destruct segs; [|discriminate]. cbn [andb].
+      destruct (Nat.ltb_spec (length (buf ++ seg)) m) as [Hlt|Hge].
+      * cbn [concat]. rewrite app_nil_r. unfold flat. cbn [fst snd]. split; [exact Hlt|]. rewrite app_assoc. reflexivity.
+      * cbn [andb seg_loop]. split; [exact Hi|]. rewrite Hf. unfold flat. cbn [fst snd concat].
+        rewrite app_nil_r, app_assoc. reflexivity.
+    + cbn [andb].
+      specialize (IH segs rc (write_segment m (buf ++ seg, out)) Hm Hb' Hlen Hi). cbn zeta in IH.
+      destruct IH as [IH1 IH2]. split; [exact IH1|]. rewrite IH2, Hf. unfold flat. cbn [fst snd concat].
+      rewrite <- !app_assoc. reflexivity.
+Qed.
+
+Lemma seg_loop_bounded_last {A} (mode : padmode) (nil : A) m rows : forall (segs : list (list A)) rc st,
+  0 < m -> rows <> [] -> Forall (fun r => r <= m) rows -> map (@length A) segs = rows -> length (fst st) < m ->
+  let st' := seg_loop mode nil m true rows (Some segs) rc st in
+  fst st' = [] /\ concat (snd st') = flat st ++ concat segs.
+Proof.
+  induction rows as [|r rest IH]; intros segs rc st Hm Hne Hb Hlen Hinv; [congruence|].
+  destruct segs as [|seg segs]; [discriminate|]. cbn in Hlen. injection Hlen as Hseg Hlen.
+  apply Forall_cons_iff in Hb. destruct Hb as [Hr Hb']. rewrite <- Hseg in Hr.
+  destruct st as [buf out]. cbn [fst snd] in Hinv. cbn [seg_loop fst snd negb andb].
+  assert (Hl2 : length (buf ++ seg) < 2 * m) by (rewrite app_length; lia).
+  destruct (write_any m (buf ++ seg) out Hm Hl2) as [Hi Hf].
+  destruct rest as [|r2 rest2].
+  - destruct segs; [|discriminate]. cbn [andb seg_loop].
+    destruct (write_segment m (buf ++ seg, out)) as [b1 o1] eqn:E1. cbn [fst snd] in *.
+    unfold flat in Hf. cbn [fst snd] in Hf.
+    destruct (Nat.ltb_spec 0 (length b1)) as [Hpos|Hz].
+    + rewrite (write_segment_le m b1 o1) by lia. cbn [fst snd]. split; [reflexivity|].
+      rewrite concat_snoc, Hf. unfold flat. cbn [fst snd concat]. rewrite app_nil_r, app_assoc. reflexivity.
+    + destruct b1; [|cbn in Hz; lia]. cbn [fst snd]. split; [reflexivity|].
+      rewrite app_nil_r in Hf. rewrite Hf. unfold flat. cbn [fst snd concat]. rewrite app_nil_r, app_assoc. reflexivity.
+  - cbn [andb].
+    assert (Hne2 : r2 :: rest2 <> []) by discriminate.
+    specialize (IH segs rc (write_segment m (buf ++ seg, out)) Hm Hne2 Hb' Hlen Hi). cbn zeta in IH.
+    destruct IH as [IH1 IH2]. split; [exact IH1|]. rewrite IH2, Hf. unfold flat. cbn [fst snd concat].
+    rewrite <- !app_assoc. reflexivity.
+Qed.
+
+Lemma present_len_b {A} (nil : A) m s : bounded_src m s -> map (@length A) (present nil s) = s_rows s.
+Proof.
+  intros [_ [_ H]]. unfold present. destruct (s_col s); [exact H|].
+  rewrite map_map. rewrite <- (map_id (s_rows s)) at 2. apply map_ext. intro. apply repeat_length.
+Qed.
+
+Lemma itr_loop_actual {A} (nil : A) m srcs : forall st,
+  0 < m -> srcs <> [] -> Forall (bounded_src m) srcs -> length (fst st) < m ->
+  let st' := itr_loop PadActual nil m srcs st in
+  fst st' = [] /\ concat (snd st') = flat st ++ concat (map (expand nil) srcs).
+Proof.
+  induction srcs as [|s rest IH]; intros st Hm Hne Hall Hinv; [congruence|].
+  inversion Hall as [|? ? Hs Hrest]; subst. cbn [itr_loop map concat].
+  assert (Epre : forall li, seg_loop PadActual nil m li (s_rows s) (s_col s) (total (s_rows s)) st =
+                            seg_loop PadActual nil m li (s_rows s) (Some (present nil s)) (total (s_rows s)) st).
+  { intro li. unfold present. destruct (s_col s); [reflexivity | apply pad_actual_as_present]. }
+  rewrite Epre. destruct Hs as [Hs1 [Hs2 Hs3]].
+  destruct rest as [|s2 rest2].
+  - cbn [itr_loop].
+    destruct (seg_loop_bounded_last PadActual nil m (s_rows s) (present nil s) (total (s_rows s)) st Hm Hs1 Hs2
+                (present_len_b nil m s (conj Hs1 (conj Hs2 Hs3))) Hinv) as [H1 H2].
+    split; [exact H1|]. rewrite H2, present_expand. cbn [map concat]. rewrite app_nil_r. reflexivity.
+  - destruct (seg_loop_bounded_mid PadActual nil m (s_rows s) (present nil s) (total (s_rows s)) st Hm Hs2
+                (present_len_b nil m s (conj Hs1 (conj Hs2 Hs3))) Hinv) as [H1 H2].
+    assert (Hne2 : s2 :: rest2 <> []) by discriminate.
+    destruct (IH _ Hm Hne2 Hrest H1) as [I1 I2].
+    split; [exact I1|]. rewrite I2, H2, present_expand, <- app_assoc. reflexivity.
+Qed.
+
+(* MAIN (repaired padding): nothing lost, duplicated, reordered or shifted, without the full-inner-segments premise *)
+Lemma compact_col_actual_correct {A} (nil : A) m srcs :
+  0 < m -> srcs <> [] -> Forall (bounded_src m) srcs ->
+  concat (compact_col_actual nil m srcs) = concat (map (expand nil) srcs).
+Proof.
+  intros Hm Hne Hall. unfold compact_col_actual, compact_col_gen.
+  assert (Hinv : length (fst (([] : list A), ([] : list (list A)))) < m) by (cbn; lia).
+  destruct (itr_loop_actual nil m srcs _ Hm Hne Hall Hinv) as [H1 H2]. cbn zeta in *.
+  rewrite H1. cbn [length Nat.ltb Nat.leb]. rewrite H2. reflexivity.
+Qed.
+
+(* on well-formed chunks the repair changes nothing *)
+Lemma actual_eq_counter_on_wf {A} (nil : A) m srcs :
+  Forall (wf_src m) srcs -> compact_col_actual nil m srcs = compact_col nil m srcs.
+Proof.
+  intro Hall. unfold compact_col_actual, compact_col, compact_col_gen.
+  assert (E : forall st, itr_loop PadActual nil m srcs st = itr_loop PadCounter nil m srcs st).
+  { induction srcs as [|s rest IH]; intro st; [reflexivity|]. inversion Hall as [|? ? Hs Hrest]; subst.
+    cbn [itr_loop]. rewrite (IH Hrest).
+    f_equal. rewrite (seg_loop_present nil m _ s st Hs).
+    unfold present. destruct (s_col s) eqn:Ec.
+    - clear. generalize (total (s_rows s)) as rc. revert st l.
+      induction (s_rows s) as [|r rows IHr]; intros st l rc; [reflexivity|].
+      cbn [seg_loop]. destruct l as [|seg segs]; (destruct (_ && _ && _); [reflexivity | apply IHr]).
+    - rewrite pad_actual_as_present.
+      generalize (total (s_rows s)) as rc. generalize (map (repeat nil) (s_rows s)) as l. clear. revert st.
+      induction (s_rows s) as [|r rows IHr]; intros st l rc; [reflexivity|].
+      cbn [seg_loop]. destruct l as [|seg segs]; (destruct (_ && _ && _); [reflexivity | apply IHr]). }
+  rewrite E. reflexivity.
+Qed.
+
 Lemma rows_preserved (A : Type) (nil : A) (m : nat) (st : list (src Z)) (sf : list (src A)) :
   0 < m -> st <> [] -> Forall (wf_src m) st -> Forall (wf_src m) sf -> map s_rows st = map s_rows sf ->
   combine (concat (compact_col 0%Z m st)) (concat (compact_col nil m sf)) =
@@ -285,4 +414,16 @@ Lemma short_inner_segments_refuted :
     0 < m /\ concat (compact_col None m srcs) <> concat (map (expand None) srcs).
 Proof.
   exists 4, [mksrc [2; 2; 1] None; mksrc [1] (Some [[Some 7%Z]])]. split; [lia|]. vm_compute. discriminate.
+Qed.
+
+(* finding C03-pad-segment-size: the counter arithmetic is wrong for chunks with short inner segments although no segment is
+   longer than max-rows (files written under a smaller max-rows-per-segment) *)
+Lemma counter_padding_refuted :
+  exists (m : nat) (srcs : list (src (option Z))),
+    0 < m /\ srcs <> [] /\ Forall (bounded_src m) srcs /\
+    concat (compact_col None m srcs) <> concat (map (expand None) srcs).
+Proof.
+  exists 4, [mksrc [2; 2; 1] None; mksrc [1] (Some [[Some 7%Z]])]. split; [lia|]. split; [discriminate|]. split.
+  - repeat constructor; cbn; try lia; discriminate.
+  - vm_compute. discriminate.
 Qed.
